@@ -462,7 +462,7 @@ func c05OwnIssue(c *core.Ctx) bool {
 			}
 			c.Violation("catching-schema-has-extra-issue|"+mode, map[string]any{"schema": "{a: String().Test(files its own issue).Catch(CAUGHT), b: String().Min(1), l: Slice(same leaf), p: Ptr(same leaf)}",
 				"what_the_test_files": []string{"issue with an error", "issue with code and message", "issue with another path and a wrapped error", "issue with params"}[variant],
-				"issues": fmt.Sprint(z.Issues.SanitizeMap(issues)), "destination": fmt.Sprintf("A=%q B=%q L=%q P=%q", d.A, d.B, d.L, pval)})
+				"issues":              fmt.Sprint(z.Issues.SanitizeMap(issues)), "destination": fmt.Sprintf("A=%q B=%q L=%q P=%q", d.A, d.B, d.L, pval)})
 			return false
 		}
 	}
